@@ -3,7 +3,7 @@
 From Coq Require Import List Arith Bool NArith.
 From GV Require Import Base.Result Gen.TokenTypes Gen.Defs Gen.Instr Model.Parser Model.BuilderWL Model.Compile
   Spec.Depth Proofs.C05.Known Proofs.C05.Bounded Proofs.C06.Known Proofs.C06.DepthSound Proofs.C06.Dynamic
-  Proofs.C06.Bounded Proofs.C06.Refuted.
+  Proofs.C06.Bounded Proofs.C06.Bounded7 Proofs.C06.Refuted.
 Import ListNotations.
 
 (* ---- static half: the checker ---- *)
@@ -28,6 +28,11 @@ Theorem C06_static_reduced_bounded_5 : forall toks init,
   length toks <= 5 -> (forall x, In x toks -> In x reduced_alphabet) -> In init inits -> built_typable toks init.
 Proof. intros toks init Hl Ha Hi. exact (check_d_meaning _ init (reduced_check_d toks Hl Ha) Hi). Qed.
 Print Assumptions C06_static_reduced_bounded_5.
+
+Theorem C06_static_small_bounded_7 : forall toks init,
+  length toks = 7 -> (forall x, In x toks -> In x small_alphabet) -> In init inits -> built_typable toks init.
+Proof. intros toks init Hl Ha Hi. exact (check_d_meaning _ init (small_check_d toks Hl Ha) Hi). Qed.
+Print Assumptions C06_static_small_bounded_7.
 
 (* the full static statement (by induction on the tree through Model/Compile.v): not yet proved *)
 Definition C06_static_full_statement : Prop :=
